@@ -221,7 +221,7 @@ def gen_dataset(r, task: str) -> Tuple[D.SceneSpec, Dict[str, Any]]:
                 continue
             pos = tuple(ins["p"][i] + ins["v"][i] * sec for i in range(3))
             dq = G.quat_from_yaw(0.1 * sec)
-            anns.append(D.Ann(inst=ins["key"], category=ins["cat"], pos=pos, yaw=0.0, quat=G.quat_mul(ins["q"], dq), size=ins["size"], npts=r.choice([0, 1, 7, 250]), vis=r.choice(vis_tokens), attrs=ins["attrs"]))
+            anns.append(D.Ann(inst=ins["key"], category=ins["cat"], pos=pos, yaw=0.0, quat=G.quat_mul(ins["q"], dq), size=ins["size"], npts=r.choice([0, 1, 7, 250]), vis=r.choice(vis_tokens), attrs=ins["attrs"], radar_pts=r.choice([0, 0, 3, 40])))
         samples.append(D.Sample(t=t, ego_pos=ep, ego_yaw=0.0, ego_quat=eq, anns=anns))
     extra = []
     for ch, mod in r.sample([("CAM_FRONT", "camera"), ("CAM_BACK_LEFT", "camera"), ("RADAR_FRONT", "radar"), ("RADAR_BACK", "radar"), ("CAM_TRAFFIC_LIGHT_NEAR", "camera")], r.randint(0, 3)):
